@@ -369,6 +369,12 @@ def cases(tier, seed):
             pool = SEGS + list(edges) + sorted(groups) + sorted(usets)
             usets["u%d" % ui] = rng.sample(pool, rng.randrange(1, min(4, len(pool)) + 1))
         out.append((edges, groups, usets, rng.randrange(10**6)))
+    # nested sets that share a member without containing themselves: diamond, the same set listed twice, a path reached twice
+    for us in ({"u0": ["C"], "u1": ["A", "u0"], "u2": ["u0", "e1"], "u3": ["u1", "u2"]}, {"u0": ["C"], "u1": ["u0", "D", "u0"]},
+               {"u0": ["A", "B"], "u1": ["u0"], "u2": ["u1", "u0", "u1"]}):
+        for sd in range(4):
+            out.append((("e1", "e2", "e3"), {"o0": ["A+", "B+"]}, dict(us), 1000 + sd))
+    out.append((("e1", "e2", "e3"), {"o0": ["A+", "B+"]}, {"u0": ["o0", "C"], "u1": ["o0", "u0"]}, 7))
     # systematic nested references: every boundary kind of the inner path (segment/edge first, segment/edge last), both orientations,
     # every oriented segment or nothing before, every oriented segment / edge or nothing after
     sys_edges = ("e1", "e2", "e3", "e4", "e6")
